@@ -253,6 +253,21 @@ pub fn c06_special(rep: &mut Rep) {
             Err(e) => rep.fail("C06.proportional", text, format!("rejected: {}", e)),
         }
     }
+    // the AUX lines of a multi-service system interleaved with those of another system (1, 2, 1 and 2, 1, 1, 2): per system and step the
+    // assigned auxiliary energy adds up to what was declared, once
+    for text in ["1,CONSUMO,CAL,GASNATURAL,100,80,60\n1,CONSUMO,ACS,GASNATURAL,40,40,40\n1,SALIDA,CAL,90,72,54\n1,SALIDA,ACS,30,30,30\n1,AUX,3,2,1\n2,CONSUMO,REF,ELECTRICIDAD,10,20,30\n2,SALIDA,REF,-30,-60,-90\n2,AUX,1,2,3\n1,AUX,1,1,1",
+                 "2,AUX,1,0,1\n1,AUX,2,2,2\n1,CONSUMO,CAL,ELECTRICIDAD,10,10,10\n1,CONSUMO,ACS,ELECTRICIDAD,5,5,5\n1,SALIDA,CAL,30,30,10\n1,SALIDA,ACS,10,30,30\n1,AUX,2,0,2\n2,CONSUMO,CAL,GASNATURAL,50,50,50\n2,CONSUMO,REF,GASNATURAL,5,5,5\n2,SALIDA,CAL,40,40,40\n2,SALIDA,REF,-10,-10,-40\n2,AUX,0,3,0\n3,CONSUMO,VEN,ELECTRICIDAD,7,7,7\n3,AUX,1,1,1\n1,AUX,0,1,0"] {
+        rep.evals += 1;
+        let declared = |id: i32| -> Vec<f32> { let mut v = vec![0.0f32; 3]; for l in text.lines() { let f: Vec<&str> = l.split(',').collect(); if f[1] == "AUX" && f[0].parse::<i32>() == Ok(id) { for i in 0..3 { v[i] += f[2 + i].parse::<f32>().unwrap_or(0.0); } } } v };
+        match text.parse::<Components>() {
+            Ok(c) => for id in [1, 2, 3] {
+                let mut got = vec![0.0f32; 3];
+                for e in &c.data { if let Energy::Aux(a) = e { if a.id == id { for i in 0..3.min(a.values.len()) { got[i] += a.values[i]; } } } }
+                if !veq(&got, &declared(id)) { rep.fail("C06.conserved", text, format!("system {}: auxiliary energy {:?} declared (in lines that alternate with another system's), {:?} after service assignment", id, declared(id), got)); }
+            },
+            Err(e) => rep.fail("C06.conserved", text, format!("rejected: {}", e)),
+        }
+    }
     // a system with a negative id (fictitious / reference systems are numbered that way): its auxiliaries are counted like any other
     {
         let text = "1,CONSUMO,CAL,ELECTRICIDAD,100,40\n-1,CONSUMO,VEN,ELECTRICIDAD,40,40\n-1,AUX,4,4\n-2,CONSUMO,ACS,GASNATURAL,9,9\n-2,AUX,1,2";
@@ -542,6 +557,64 @@ pub fn c07(rep: &mut Rep, seed: u64) {
         "ELECTRICIDAD, RED, SUMINISTRO, A, 0.4, 2.0, 0.3\nGASNATURAL, RED, SUMINISTRO, A, 0.0, 1.2, 0.25\nBIOMASA, RED, SUMINISTRO, B, 1.0, 0.1, 0.02\nRED1, INSITU, SUMINISTRO, A, 0.0, 1.3, 0.3"] {
         rep.evals += 1;
         if cte::wfactors_from_str(bad, UserWF { red1: None, red2: None }, cte::CTE_USERWF).is_ok() { rep.fail("C07.unusable_rejected", bad, "set with a carrier lacking its grid supply factor accepted".into()); }
+    }
+    // ---- the location pipeline, called several times in one process with different user values, defaults and tables:
+    // every call answers for its own arguments (user value > table value > default for RED1 / RED2; the factors of the table it was given)
+    {
+        let u = |a: f32| RenNrenCo2::new(a, a + 0.25, a / 4.0);
+        let r3 = |v: RenNrenCo2| [v.ren, v.nren, v.co2];
+        for loc in ["PENINSULA", "BALEARES", "CANARIAS", "CEUTAMELILLA"] {
+            let base = match cte::CTE_LOCWF_RITE2014.get(loc) { Some(b) => b.clone(), None => { rep.fail("C07.pipeline_loc", loc, "no regulatory table for this location".into()); continue } };
+            // a user table: the regulatory one with other grid factors for electricity and natural gas, and its own RED2 line
+            let mut own = base.clone();
+            for f in own.wdata.iter_mut() {
+                if f.source == Source::RED && f.dest == Dest::SUMINISTRO && f.step == Step::A {
+                    if f.carrier == Carrier::ELECTRICIDAD { f.ren = 0.5; f.nren = 1.5; f.co2 = 0.25; }
+                    if f.carrier == Carrier::GASNATURAL { f.ren = 0.0; f.nren = 1.25; f.co2 = 0.5; }
+                }
+            }
+            own.wdata.push(Factor::new(Carrier::RED2, Source::RED, Dest::SUMINISTRO, Step::A, RenNrenCo2::new(0.125, 0.875, 0.0625), "user table"));
+            let mut ownmap = std::collections::HashMap::new();
+            ownmap.insert(loc, own.clone());
+            let calls: Vec<(&str, bool, UserWF<Option<RenNrenCo2>>, UserWF<RenNrenCo2>)> = vec![
+                ("regulatory table, no user values, regulatory defaults", false, UserWF { red1: None, red2: None }, cte::CTE_USERWF),
+                ("regulatory table, user RED1 and RED2", false, UserWF { red1: Some(u(0.5)), red2: Some(u(0.25)) }, cte::CTE_USERWF),
+                ("regulatory table, no user values, other defaults", false, UserWF { red1: None, red2: None }, UserWF { red1: u(0.75), red2: u(1.0) }),
+                ("user table, no user values, other defaults", true, UserWF { red1: None, red2: None }, UserWF { red1: u(0.75), red2: u(1.0) }),
+                ("regulatory table, user RED2 only", false, UserWF { red1: None, red2: Some(u(2.0)) }, cte::CTE_USERWF),
+                ("user table, user RED1 only", true, UserWF { red1: Some(u(3.0)), red2: None }, cte::CTE_USERWF),
+                ("regulatory table, no user values, regulatory defaults (again)", false, UserWF { red1: None, red2: None }, cte::CTE_USERWF),
+            ];
+            for (what, use_own, user, defaults) in calls {
+                rep.evals += 1;
+                let res = if use_own { cte::wfactors_from_loc(loc, &ownmap, user, defaults) } else { cte::wfactors_from_loc(loc, &cte::CTE_LOCWF_RITE2014, user, defaults) };
+                let w = match res { Ok(w) => w, Err(e) => { rep.fail("C07.pipeline_loc", loc, format!("{}: rejected: {}", what, e)); continue } };
+                rep.nontrivial += 1;
+                let table = if use_own { &own } else { &base };
+                let in_table = |c: Carrier| table.wdata.iter().find(|f| f.carrier == c && f.source == Source::RED && f.dest == Dest::SUMINISTRO && f.step == Step::A).map(|f| [f.ren, f.nren, f.co2]);
+                let want1 = user.red1.map(r3).or(in_table(Carrier::RED1)).unwrap_or(r3(defaults.red1));
+                let want2 = user.red2.map(r3).or(in_table(Carrier::RED2)).unwrap_or(r3(defaults.red2));
+                for (key, want) in [("RED1, RED, SUMINISTRO, A", want1), ("RED2, RED, SUMINISTRO, A", want2)] {
+                    match lookup(&w, key) {
+                        Some(got) => if !feq(got, want) { rep.fail("C07.red_precedence", loc, format!("{} ({}): '{}' reads {:?}, expected {:?} (user value > table value > default of THIS call)", loc, what, key, got, want)); },
+                        None => rep.fail("C07.red_precedence", loc, format!("{} ({}): '{}' is missing", loc, what, key)),
+                    }
+                }
+                // the grid supply factors of the table this call was given, and the step B export default of electricity that follows from them
+                for c in [Carrier::ELECTRICIDAD, Carrier::GASNATURAL, Carrier::BIOMASA] {
+                    if let Some(want) = in_table(c) {
+                        let key = format!("{}, RED, SUMINISTRO, A", c);
+                        if lookup(&w, &key).map(|g| !feq(g, want)).unwrap_or(true) { rep.fail("C07.user_values_kept", loc, format!("{} ({}): '{}' reads {:?}, the table given to this call says {:?}", loc, what, key, lookup(&w, &key), want)); }
+                    }
+                }
+                if let Some(grid) = in_table(Carrier::ELECTRICIDAD) {
+                    let explicit = table.wdata.iter().any(|f| f.carrier == Carrier::ELECTRICIDAD && f.source == Source::INSITU && f.dest == Dest::A_RED && f.step == Step::B);
+                    if !explicit && lookup(&w, "ELECTRICIDAD, INSITU, A_RED, B").map(|g| !feq(g, grid)).unwrap_or(true) {
+                        rep.fail("C07.export_defaults", loc, format!("{} ({}): step B export factor of on-site electricity reads {:?}, the grid supply factor of the table given to this call is {:?}", loc, what, lookup(&w, "ELECTRICIDAD, INSITU, A_RED, B"), grid));
+                    }
+                }
+            }
+        }
     }
 }
 fn buildings(mask: u32) -> Vec<String> {
